@@ -15,5 +15,5 @@ Extraction "model.ml" giv_multiplier giv_modulo giv_halfmod giv_ctor_normalises
   poly_random_resizes poly_random_into poly_random_gfq_into preq_degree poly_seq poly_seq_gfq
   ri_ctor_size ri_ctor ri_step ri_run mii_ctor rii_ctor_seed modint_nonzero mg_reduc mgru_random mgru_nonzerorandom rm_mga_rand gfqx_init_indices gfqx_random randiter_assign_copies_size
   sized_draws_guard_small_sizes poly_random_guards_negative_degree ring_random_size_src ring_nonzerorandom_size_src gfq_random_src gfq_nonzerorandom_src
-  preq_ok poly_request_src g_run gobj_rii gobj_mii native_bits random_lessthan_any nonzerorandom_any random_between_any.
+  preq_ok poly_request_src g_run gobj_rii gobj_mii native_bits random_lessthan_any nonzerorandom_any random_between_any ext_randiter_ctor ext_randiter_seed_first ext_randiter_bounds_by_base_cardinality.
 Cd "..".
